@@ -62,6 +62,7 @@ fn stmt_node(st: &Stmt) -> XNode {
         Stmt::MarkE(args, e) => el("log", vec![("expr", mark_src(args, Some(e)))], vec![]),
         Stmt::Raise(e) => el("raise", vec![("event", e.clone())], vec![]),
         Stmt::SendInternal(e) => el("send", vec![("event", e.clone()), ("target", "#_internal".into())], vec![]),
+        Stmt::SendInternalExpr(e) => el("send", vec![("eventexpr", e.render()), ("target", "#_internal".into())], vec![]),
         Stmt::SendSelf(e) => el("send", vec![("event", e.clone())], vec![]),
         Stmt::If { branches, els } => {
             let mut ch = vec![];
